@@ -7,24 +7,26 @@ import DateutilVerif.Proofs.RRuleStrErrors
 namespace RRuleStr
 open ICal (isSpace upper splitOnChar pyInt rstrip strip isDigit splitLines)
 
+variable {po : ParseOpts}
+
 /-- the assignment one `NAME=VALUE` pair makes, independent of the state -/
-def stepU (pair : List Char) : Py.R Update :=
+def stepU (po : ParseOpts) (pair : List Char) : Py.R Update :=
   match splitOnChar '=' pair with
   | [name, value] =>
-    match handleU (upper name) (upper value) with
+    match handleU po (upper name) (upper value) with
     | .ok u => .ok u
     | .error _ => .error .ValueError
   | _ => .error .ValueError
 
 theorem stepPair_eq (a : RArgs) (pair : List Char) :
-    stepPair a pair = (match stepU pair with | .ok u => .ok (u.apply a) | .error _ => .error .ValueError) := by
+    stepPair po a pair = (match stepU po pair with | .ok u => .ok (u.apply a) | .error _ => .error .ValueError) := by
   unfold stepPair stepU handle
   generalize splitOnChar '=' pair = l
   rcases l with _ | ⟨n, _ | ⟨v, _ | ⟨w, r⟩⟩⟩
   · rfl
   · rfl
   · simp only []
-    cases handleU (upper n) (upper v) <;> rfl
+    cases handleU po (upper n) (upper v) <;> rfl
   · rfl
 
 /-- assignments to different keys commute -/
@@ -57,7 +59,7 @@ macro "fin_handle " h:ident : tactic => `(tactic|
     | (try simp only [bind, Except.bind] at $h:ident
        split at $h:ident <;> first | (cases $h:ident; done) | (cases $h:ident; rfl)))
 
-theorem handleU_field {name value : List Char} {u : Update} (h : handleU name value = .ok u) :
+theorem handleU_field {name value : List Char} {u : Update} (h : handleU po name value = .ok u) :
     fieldOfName name = some u.field := by
   unfold handleU at h
   unfold fieldOfName
@@ -114,14 +116,14 @@ def partField (pair : List Char) : Option Field :=
   | [name, _] => fieldOfName (upper name)
   | _ => none
 
-theorem stepU_field {p : List Char} {u : Update} (h : stepU p = .ok u) : partField p = some u.field := by
+theorem stepU_field {p : List Char} {u : Update} (h : stepU po p = .ok u) : partField p = some u.field := by
   unfold stepU at h; unfold partField
   generalize splitOnChar '=' p = l at h ⊢
   rcases l with _ | ⟨n, _ | ⟨v, _ | ⟨w, r⟩⟩⟩
   · cases h
   · cases h
   · simp only [] at h ⊢
-    cases hh : handleU (upper n) (upper v) with
+    cases hh : handleU po (upper n) (upper v) with
     | error e => rw [hh] at h; cases h
     | ok u' => rw [hh] at h; cases h; exact handleU_field hh
   · cases h
@@ -141,15 +143,15 @@ theorem Distinct.symm {p q : List Char} (h : Distinct p q) : Distinct q p :=
 
 /-- two adjacent parts that set different keywords can be swapped -/
 theorem stepPair_swap (a : RArgs) (x y : List Char) (h : Distinct x y) :
-    (stepPair a x >>= fun a' => stepPair a' y) = (stepPair a y >>= fun a' => stepPair a' x) := by
+    (stepPair po a x >>= fun a' => stepPair po a' y) = (stepPair po a y >>= fun a' => stepPair po a' x) := by
   simp only [stepPair_eq]
-  cases hx : stepU x with
+  cases hx : stepU po x with
   | error e =>
-    cases hy : stepU y with
+    cases hy : stepU po y with
     | error e' => rfl
     | ok v => simp only [bind, Except.bind]
   | ok u =>
-    cases hy : stepU y with
+    cases hy : stepU po y with
     | error e' => simp only [bind, Except.bind]
     | ok v =>
       simp only [bind, Except.bind]
@@ -159,12 +161,12 @@ theorem stepPair_swap (a : RArgs) (x y : List Char) (h : Distinct x y) :
 /-- `parts_order_irrelevant`: the loop of `_parse_rfc_rrule` over any permutation of parts that set pairwise different
     keywords ends in the same state — the same arguments when every part parses, ValueError in every order otherwise -/
 theorem foldlM_stepPair_perm {ps qs : List (List Char)} (hperm : ps.Perm qs) (hd : ps.Pairwise Distinct) (a : RArgs) :
-    ps.foldlM stepPair a = qs.foldlM stepPair a := by
+    ps.foldlM (stepPair po) a = qs.foldlM (stepPair po) a := by
   induction hperm generalizing a with
   | nil => rfl
   | cons x _ ih =>
     rw [List.foldlM_cons, List.foldlM_cons]
-    cases stepPair a x with
+    cases stepPair po a x with
     | error e => rfl
     | ok a' => exact ih (List.pairwise_cons.mp hd).2 a'
   | swap x y l =>
